@@ -48,19 +48,24 @@ class Filter(base.Filter):
                 elif token["name"].lower() == "head" and not meta_found:
                     # insert meta into empty head
                     yield {"type": "StartTag", "name": "head",
+                           "namespace": token.get("namespace"),
                            "data": token["data"]}
                     yield {"type": "EmptyTag", "name": "meta",
+                           "namespace": token.get("namespace"),
                            "data": {(None, "charset"): self.encoding}}
-                    yield {"type": "EndTag", "name": "head"}
+                    yield {"type": "EndTag", "name": "head",
+                           "namespace": token.get("namespace")}
                     meta_found = True
                     continue
 
             elif type == "EndTag":
                 if token["name"].lower() == "head" and pending:
                     # insert meta into head (if necessary) and flush pending queue
-                    yield pending.pop(0)
+                    head = pending.pop(0)
+                    yield head
                     if not meta_found:
                         yield {"type": "EmptyTag", "name": "meta",
+                               "namespace": head.get("namespace"),
                                "data": {(None, "charset"): self.encoding}}
                     while pending:
                         yield pending.pop(0)
